@@ -526,7 +526,7 @@ def c18(ctx):
     # specification sanity: the calendar the rule days are computed with
     model_check(ctx, "MC_Civil", "MC_Civil_full" if ctx.thorough else "MC_Civil_quick", workers=4)
     # channel A: synthesized files
-    cases = gen_cases(ctx, "Gen_TZ", "C18", 8, cfg="Gen_TZ")
+    cases = gen_cases(ctx, "Gen_TZ", "C18", 16 if ctx.thorough else 8, cfg="Gen_TZ")
     mism = cases + ".mism"
     s = harness_json(["replay", "--cases", cases, "--out", mism])
     nl = 0
@@ -550,7 +550,7 @@ def c18(ctx):
     # channel B: real zone files (fat and slim re-encodings) with CPython zoneinfo as second opinion
     from concurrent.futures import ThreadPoolExecutor
     shards = 8
-    per = 1500 if ctx.thorough else 250
+    per = 4000 if ctx.thorough else 250
     traces = [ctx.path("tz-%d.ndjson" % k) for k in range(shards)]
 
     def rec(k):
@@ -636,7 +636,7 @@ def c19(ctx):
     # channel B: random structure-aware mutations of the seeds and of real zone files
     from concurrent.futures import ThreadPoolExecutor
     shards = 8
-    per = 60000 if ctx.thorough else 8000
+    per = 400000 if ctx.thorough else 8000
     outs = [ctx.path("fuzz-%d.ndjson" % k) for k in range(shards)]
     seeds = [ctx.seed * 977 + k for k in range(shards)]
 
@@ -709,8 +709,8 @@ TEXT = {
     # pid: scenario of the random recorder, generator shards, random events quick/thorough
     "C11": dict(scen="text11", gshards=8, ev=(60000, 600000)),
     "C12": dict(scen="text12", gshards=16, ev=(40000, 400000)),
-    "C13": dict(scen="text13", gshards=8, ev=(40000, 400000)),
-    "C20": dict(scen="text20", gshards=4, ev=(40000, 400000)),
+    "C13": dict(scen="text13", gshards=8, ev=(40000, 1600000)),
+    "C20": dict(scen="text20", gshards=4, ev=(40000, 1600000)),
 }
 
 
@@ -839,7 +839,7 @@ def c14(ctx):
     ctx.exhaustive = True
     # channel B: grammar-aware and mutational random pairs, judged by Trace_Text (NoPanicClauses)
     shards = 8
-    per = (1000000 if ctx.thorough else 120000) // shards
+    per = (6000000 if ctx.thorough else 120000) // shards
     traces = [ctx.path("rnd-%d.ndjson" % k) for k in range(shards)]
     seeds = [ctx.seed * 4099 + k for k in range(shards)]
 
